@@ -673,6 +673,17 @@ def open_searcher(env, rng, info, refresh_from=None):
         inj = {"fired": None}
         H.inject[tid] = [rng.choice([1, 2, 2, 3, 4, 6]), rng.choice([30, 300, 800, 2500]), inj]
         info["inject"] = inj
+    st = None
+    removes_before = H.nremoves
+    if env.lines is not None:
+        # LINE-level: this call's line events are counted; at 0..2 of them (uniform over the number of lines the last
+        # such call of this schedule executed) the reader is parked for a transaction-long pause
+        lrng = env.lines_rng
+        st = {"lines": 0, "park_at": set(), "park_steps": lrng.choice([30, 300, 800, 2500]), "parked": []}
+        est = env.open_lines_est["refresh" if refresh_from is not None else "open"]
+        for _ in range(lrng.choice([0, 1, 1, 1, 2])):
+            st["park_at"].add(lrng.randint(1, max(2, est)))
+        env.in_open[tid] = st
     try:
         if refresh_from is None:
             if rng.random() < 0.3:
@@ -688,6 +699,10 @@ def open_searcher(env, rng, info, refresh_from=None):
         from vf.core import HarnessError, whoosh_site
         from vf.sched import SchedAbort
         H.inject.pop(tid, None)
+        env.in_open.pop(tid, None)
+        if st is not None:
+            info["line_level"] = {"line_events_inside": st["lines"], "parked_at": st["parked"][:3],
+                                  "park_steps": st["park_steps"]}
         site, in_harness = whoosh_site(e)
         if in_harness:
             raise
@@ -700,8 +715,38 @@ def open_searcher(env, rng, info, refresh_from=None):
         env.stop = True
         return None, completed_before
     H.inject.pop(tid, None)
+    env.in_open.pop(tid, None)
     if info.get("inject") and info["inject"]["fired"]:
         ctx.count("open.paused_inside")
+    # reach: did a commit complete (writer lock released) / were segment files removed while this reader was INSIDE
+    # ix.searcher() / refresh()?
+    what = "refresh" if refresh_from is not None else "open"
+    with s.atomic():
+        completed_inside = H.completed > completed_before
+        removed_inside = H.nremoves > removes_before
+    if completed_inside:
+        ctx.count("inside_open.commit_completed")
+    if removed_inside:
+        ctx.count("inside_open.segment_files_removed")
+    if st is not None:
+        info["line_level"] = {"line_events_inside": st["lines"], "parked_at": st["parked"][:3],
+                              "park_steps": st["park_steps"]}
+        ctx.count("lines.%s.calls" % what)
+        ctx.count("lines.%s.line_events_inside" % what, st["lines"])
+        if st["lines"]:
+            env.open_lines_est[what] = st["lines"]
+        if st["parked"]:
+            ctx.count("lines.parked_inside_open", len(st["parked"]))
+            for fn, _ in st["parked"]:
+                env.lines_parked[fn] = env.lines_parked.get(fn, 0) + 1
+        if completed_inside:
+            ctx.count("lines.%s.commit_completed_inside" % what)
+            env.lines_commit_inside += 1
+            if st["parked"]:
+                ctx.count("lines.commit_completed_while_parked_at_a_line")
+        if removed_inside:
+            ctx.count("lines.%s.segment_files_removed_inside" % what)
+            env.lines_removed_inside += 1
     return sr, completed_before
 
 
@@ -933,10 +978,101 @@ def reader_thread(env, k):
 
 
 # ----------------------------------------------------------------------
+# LINE-level scheduling points inside the code a reader runs when it opens / refreshes
+# ----------------------------------------------------------------------
+
+def reader_side_codes():
+    """The code objects (nested functions included) of what ix.searcher() / Searcher.refresh() / up_to_date() execute:
+    TOC listing and reading, reader construction and re-use, opening of segment files (plain, compound, overlay, RAM)
+    and the W3 codec's reader constructors.  Only these get sys.monitoring LINE events (cost)."""
+    import types
+    import whoosh.codec.base as cb
+    import whoosh.codec.whoosh3 as w3
+    import whoosh.filedb.compound as cp
+    import whoosh.filedb.filestore as fs
+    import whoosh.index as wi
+    import whoosh.reading as wr
+    import whoosh.searching as ws
+    spec = [
+        (wi, ["_same_deletions"]),
+        (wi.Index, ["searcher"]),
+        (wi.FileIndex, ["__init__", "reader", "_reader", "latest_generation", "_read_toc"]),
+        (wi.TOC, ["__init__", "read", "_latest_generation", "_filename", "_pattern"]),
+        (wr.IndexReader, ["leaf_readers", "generation"]),
+        (wr.SegmentReader, ["__init__", "close", "generation", "segment"]),
+        (wr.MultiReader, ["__init__", "close", "generation", "leaf_readers"]),
+        (wr.EmptyReader, ["__init__", "generation"]),
+        (ws.Searcher, ["__init__", "refresh", "up_to_date", "close"]),
+        (fs.Storage, ["open_index", "__iter__"]),
+        (fs.OverlayStorage, ["__init__", "open_file", "file_exists", "file_length", "list", "close"]),
+        (fs.FileStorage, ["open_file", "_fpath", "list", "file_exists", "file_length"]),
+        (fs.RamStorage, ["open_file", "list", "file_exists", "file_length"]),
+        (cp.CompoundStorage, ["__init__", "open_file", "range", "file_exists", "file_length", "close"]),
+        (cb.Segment, ["open_compound_file", "open_file", "make_filename", "is_compound", "segment_id"]),
+        (w3.W3Codec, ["terms_reader", "per_document_reader"]),
+        (w3.W3PerDocReader, ["__init__", "close"]),
+        (w3.W3TermsReader, ["__init__", "close"]),
+    ]
+    seen = {}
+
+    def add_code(co):
+        if id(co) in seen:
+            return
+        seen[id(co)] = co
+        for c in co.co_consts:
+            if isinstance(c, types.CodeType):
+                add_code(c)
+    for owner, names in spec:
+        for nm in names:
+            o = vars(owner).get(nm)
+            if isinstance(o, (staticmethod, classmethod)):
+                o = o.__func__
+            if isinstance(o, types.FunctionType):
+                add_code(o.__code__)
+    return list(seen.values())
+
+
+def make_reader_lines(S, sched, env, prob, seed, no_yield_when):
+    """LineYields restricted to reader_side_codes().  Besides the seeded per-line yields (every managed thread), a
+    reader that is INSIDE ix.searcher() / refresh() can be parked at one chosen LINE event of that call for a
+    transaction-long pause, so that whole commits + clean_files land between two lines of the opening code."""
+
+    class ReaderLines(S.LineYields):
+        def _cb(self, code, line):
+            s = self.sched
+            t = s._cur()
+            if t is None or t.atomic or s.aborted:
+                return None
+            if self.no_yield_when is not None and self.no_yield_when():
+                return None
+            self.fired += 1
+            st = env.in_open.get(t.tid)
+            if st is not None:
+                st["lines"] += 1
+                fn = code.co_qualname
+                env.lines_inside[fn] = env.lines_inside.get(fn, 0) + 1
+                if st["lines"] in st["park_at"]:
+                    st["parked"].append((fn, line))
+                    s.pause(st["park_steps"])
+                    return None
+            if self.prob < 1.0 and self.rng.random() >= self.prob:
+                return None
+            self.yields += 1
+            fn = code.co_qualname
+            env.line_yields[fn] = env.line_yields.get(fn, 0) + 1
+            s._switch(t, ("line", code.co_name, line), False)
+            return None
+
+    ly = ReaderLines(sched, [], prob=prob, seed=seed, exclude=("__del__",), no_yield_when=no_yield_when)
+    ly.codes = [c for c in reader_side_codes() if c.co_name != "__del__"]
+    return ly
+
+
+# ----------------------------------------------------------------------
 # one schedule
 # ----------------------------------------------------------------------
 
-def run_thread_case(ctx, idx, rng):
+def run_thread_case(ctx, idx, rng, lines=False):
     from vf import sched as S
     from vf.tap import Tap
     from whoosh import index
